@@ -32,7 +32,8 @@ TRUSTED = [
     "correspondence: random histories against real objects, every built pipeline and dataset re-observed after every step and compared with the model inside Coq "
     "(observations written as differences, trace_ok_d; PipelineBuilder.from_config as the model's from_config_ops applied to the document the pipeline showed before the call)",
     "Arrow tables, nodes and ItemList objects are treated as immutable values; that shipped components leave their ItemList inputs unchanged is checked by the "
-    "oracle (digest of every ItemList argument of every component call before and after), not proved",
+    "oracle (full observable state -- content, vocabulary identity and content, numbers per missing mode, data-frame forms -- of every ItemList argument of "
+    "every component call before and after, candidates handed over in every representation of an item list), not proved",
 ]
 ASSUMPTIONS = [
     "a pipeline is trained only if its trainable component instances are not shared with another pipeline (Pipeline.modify documents that unmodified "
@@ -55,8 +56,15 @@ RULE = ("histories of 8-30 operations over both families: dataset builder (entit
         "vocabularies, statistics, counts, matrices, user rows, save; wiring lookups and runs) -- (config JSON, hash and the hash of the configuration as it stands, wiring, node_input_connections, private wiring, alias / name lookups, run results; schema (fields and whole "
         "document), tables, vocabularies, matrices with values, attributes, per-user / per-item statistics and the statistics of every matrix, counts, user rows, "
         "saved form (when first seen, after every derivation from it, at the end)); datasets with declared-but-empty entity classes, with users / items that "
-        "never interact, and with the default interaction class marked or left to be worked out (one class, several, none); the observer never edits a frame it is handed; plus standard pipelines around shipped scorers trained and run with every ItemList argument digested before and after each "
-        "component call; non-trivial = at least one object observed across >= 3 later steps of which >= 1 is a mutation through a derived or producing builder; "
+        "never interact, and with the default interaction class marked or left to be worked out (one class, several, none); the observer never edits a frame it is handed; "
+        "replace_component with every KIND of replacement (another instance of the class the node already runs with other settings, the class with other "
+        "settings, the same function, another class / function / plain callable object) on the producing builder and on builders obtained by modify() "
+        "(these are then built half of the time), the original pipeline's component objects (identity), their settings and its run results re-observed; "
+        "plus standard pipelines around shipped scorers trained on the catalogue, on a split of it or on a training set of its own built from the records "
+        "on part of the items (other numbering), and run with the candidates in every REPRESENTATION of an item list -- identifiers only; numbers + "
+        "vocabulary; identifiers + a vocabulary (the catalogue's, the training set's, one numbering the catalogue in another order; with a further field) -- "
+        "with the full observable state of every ItemList argument (content, fields, WHICH vocabulary it has, numbers with each treatment of unknown items "
+        "and relative to its own vocabulary, data-frame forms) taken before and after each component call and each pipeline run; non-trivial = at least one object observed across >= 3 later steps of which >= 1 is a mutation through a derived or producing builder; "
         "distinct = by hash of the case")
 
 TRAINABLE_CODES = ["vcomp:Learner", "c14_comp:PlainLearner"]
@@ -249,7 +257,7 @@ def gen_history(rng):
     def pb_step(i, prefer=None):
         b = S.pblds[i]
         comps = sorted(b["comps"])
-        if prefer in ("connect", "clear", "default") and not comps:
+        if prefer in ("connect", "clear", "default", "replace") and not comps:
             prefer = None
         choice = prefer or rng.weighted([("add", 3), ("connect", 4 if comps else 0), ("clear", 2 if comps else 0), ("replace", 2 if comps else 0),
                                          ("alias", 3), ("unalias", 1 if b["aliases"] else 0), ("default", 1 if comps else 0), ("input", 1),
@@ -303,9 +311,14 @@ def gen_history(rng):
                 b["lw"][n] = set()
         elif choice == "replace":
             n = rng.choice(comps)
-            comp = rng.choice(sorted(SIGS))
-            st = rng.choice(STYLES[comp])
-            op = {"op": "pb_replace", "b": i, "name": n, "comp": comp, "style": st, "ins": gen_ins(b, comp, n, (1, 3)), **addr(b, n, ("name", "node"))}
+            # every KIND of replacement: the same component again (another instance of the same class with other settings, the class with
+            # other settings, the same function), another class, a function, a plain callable object
+            was = b["comps"][n]
+            same = rng.chance(1, 2)
+            comp = was if same else rng.choice(sorted(SIGS))
+            st = "instance" if same and "instance" in STYLES[comp] and rng.chance(2, 3) else rng.choice(STYLES[comp])
+            op = {"op": "pb_replace", "b": i, "name": n, "comp": comp, "style": st, "ins": gen_ins(b, comp, n, (1, 3)), **addr(b, n, ("name", "node")),
+                  "was": was, "on_derived": bool(b.get("derived"))}
             op["ins_via"] = ins_via(b, op["ins"])
             op["lits"] = gen_lits(comp, op["ins"], (1, 6))
             if st != "fn":
@@ -427,10 +440,14 @@ def gen_history(rng):
             ops.append({"op": "pmodify", "p": j})
             p = S.pipes[j]
             S.pblds.append(pcopy(p))
+            S.pblds[-1]["derived"] = True
             # the derived builder is edited straight away (its first edits are the ones that meet whatever it took from the pipeline)
             if rng.chance(3, 4):
                 for _ in range(rng.randint(1, 3)):
-                    pb_step(len(S.pblds) - 1, prefer=rng.choice(["connect", "connect", "clear", "alias", None, None]))
+                    pb_step(len(S.pblds) - 1, prefer=rng.choice(["connect", "connect", "clear", "alias", "replace", "replace", None, None]))
+                if rng.chance(1, 2):
+                    # the derivative is built; the ORIGINAL is what keeps being observed (and run) afterwards
+                    pbuild(len(S.pblds) - 1)
         elif kind == "pclone":
             j = rng.below(len(S.pipes))
             ops.append({"op": "pclone", "p": j})
@@ -515,7 +532,9 @@ def gen_standard(rng):
     scorer = rng.choice(SHIPPED)
     return {"kind": "std", "scorer": scorer, "settings": SHIPPED_SETTINGS.get(scorer, {}), "builder": rng.choice(["topn", "predict"]),
             "ratings": gen_ratings(rng, users, items, 40), "users": rng.sample(users, 3) + [999], "candidates": rng.sample(items, 6) + [77],
-            "n": rng.choice([3, 5]), "style": "std:" + scorer.split(":")[1]}
+            "n": rng.choice([3, 5]), "style": "std:" + scorer.split(":")[1],
+            # what the model is trained on: the catalogue the candidate lists refer to, or a training set derived from it
+            "train_on": rng.choice(["full", "split", "subset", "subset"]), "seed": rng.randint(1, 99)}
 
 
 def gen_cases(rng, tier):
@@ -743,7 +762,7 @@ def share_strings(term: str) -> str:
 # the property as a predicate on implementation output (independent of the Coq model)
 # ---------------------------------------------------------------------------------------------
 
-P_CONST = ["name", "edges", "aliases", "default", "hash", "hash_of_config", "config", "nic", "private_edges", "lookup"]
+P_CONST = ["name", "edges", "aliases", "default", "hash", "hash_of_config", "config", "nic", "private_edges", "lookup", "inst", "settings"]
 
 
 def render_history(case, obs, t0, t1):
@@ -786,7 +805,8 @@ def oracle(case, obs):
 
     if case["kind"] == "std":
         for c in obs["changes"]:
-            bad(f"itemlist-input-changed:{c}", f"an ItemList handed to {c} was different after the call")
+            bad(f"itemlist-input-changed:{c}", f"an ItemList handed to {c} was different after the call: {(obs.get('details') or {}).get(c, [])} differ "
+                f"(scorer {case['scorer']}, {case['builder']} pipeline, trained on {obs.get('train_on', 'full')})")
         if not obs["dataset_unchanged"]:
             diff = [k for k in obs["before"] if obs["before"][k] != obs["after"][k]]
             bad("dataset-changed-by-train-or-run", f"training/running a pipeline changed the dataset ({diff})")
@@ -830,6 +850,8 @@ def oracle(case, obs):
                 continue
             t0, o0 = first_p[j]
             for f in P_CONST:
+                if f not in o or f not in o0:
+                    continue
                 if o[f] != o0[f] and once(("p", j, f)):
                     bad(f"pipeline-changed:{f}:after-{after}", f"pipeline #{j} built at step {t0} has a different {f} after step {t} ({op['op']}): "
                                                               f"{show_diff(o0[f], o[f])}; history: {render_history(case, obs, t0, t)}")
@@ -897,7 +919,10 @@ def counters(case, obs):
     yield "style=" + case["style"].split(":")[0]
     if case["kind"] == "std":
         yield "scorer=" + case["scorer"].split(":")[1]
-        yield f"component-calls-watched={min(obs['calls'], 20)}"
+        yield f"component-calls-watched={min(obs['calls'] // 20 * 20, 200)}"
+        yield f"trained-on={obs.get('train_on', 'full')}"
+        for kd in obs.get("list_kinds", []):
+            yield "item-list=" + kd
         return
     yield f"steps={min(len(case['ops']) // 5 * 5, 40)}"
     for op, st in zip(case["ops"], obs["steps"]):
@@ -911,6 +936,10 @@ def counters(case, obs):
             if op["op"] != "pb_connect":
                 yield f"component-kind={'function' if op['style'] == 'fn' else 'plain-callable-object' if CODES[op['comp']].startswith('c14_comp') else 'Component-by-' + op['style']}" \
                       f"{'(trainable)' if op['comp'] in TRAINABLE else ''}"
+        if op["op"] == "pb_replace" and not st["result"]["err"] and "was" in op:
+            what = ("same-class-" + {"instance": "other-instance", "class": "by-class", "fn": "function"}[op["style"]] if op["was"] == op["comp"]
+                    else "other-" + {"instance": "instance", "class": "class", "fn": "function"}[op["style"]])
+            yield f"pb_replace:{'derived' if op.get('on_derived') else 'own'}-builder:{what}"
         if op["op"] in ("pclone", "pfromconfig", "pmodify", "ptrain") and not st["result"]["err"]:
             f = pipe_facts(st["snap"]["pipes"][op["p"]])
             tag = op["op"] + (":" + op["how"] if "how" in op else "")
